@@ -678,7 +678,9 @@ impl<'a> ByteReader for SliceReader<'a> {
     }
 
     fn check_eor(&self, num_bytes: usize) -> Result<(), DeserializationError> {
-        if self.pos + num_bytes > self.source.len() {
+        // `pos` never exceeds the source length; comparing against the remainder avoids an
+        // overflow for very large (untrusted) `num_bytes`
+        if num_bytes > self.source.len() - self.pos {
             return Err(DeserializationError::UnexpectedEOF);
         }
         Ok(())
